@@ -83,7 +83,7 @@ Section BuilderHist.
     destruct (ComposeBuilderOpsP.builder_roundtrip_concrete tyc nm pc tys p _ W R) as [st' [E' K]].
     rewrite E in E'. injection E' as <-. destruct (K HCs) as [G [A _]].
     assert (OKs : forall o, OK0 o -> OpOK E0 e0_ok o).
-    { unfold OK0, cop_ok_b. intros o Eo. apply andb_true_iff in Eo as [Eo _]. now apply op_ok_OpOK. }
+    { unfold OK0, cop_ok_b. intros o Eo. now apply op_ok_OpOK. }
     apply (state_roundtrip_on (op E0) (sop E0) unit enc dec ndp tt unit_is_nil _ _ _ (c_ndp_spec E0 E0 e0)
              eq_refl ComposeBuilderP.unit_nil_unique OK0).
     - intros o Ho. exact (c_enc_dec_enc E0 E0 e0 e0 e0 e0_type e0_ok e0_rt o (OKs o Ho)).
@@ -93,7 +93,7 @@ Section BuilderHist.
     - exact HH.
     - exact HC.
     - apply view_AllOps. rewrite Ev. intros i nd Hn.
-      destruct (ops_ok_In E0 unit e0_ok _ A i nd Hn) as [O T]. unfold OK0, cop_ok_b. now rewrite O, T.
+      exact (ops_ok_In E0 unit e0_ok _ A i nd Hn).
     - exact F.
   Qed.
 End BuilderHist.
